@@ -3,6 +3,7 @@ package parser
 import (
 	"encoding/xml"
 	"io"
+	"strings"
 
 	"github.com/ChrisTrenkamp/xsel/node"
 	"golang.org/x/net/html/charset"
@@ -85,6 +86,7 @@ type xmlParser struct {
 	xmlReader  *xml.Decoder
 	pending    xml.Token
 	pendingErr error
+	depth      int
 	namespaces []XmlNamespace
 	nsPos      int
 	attrs      []XmlAttribute
@@ -118,6 +120,7 @@ func (x *xmlParser) Pull() (node.Node, bool, error) {
 
 	switch n := tok.(type) {
 	case xml.StartElement:
+		x.depth++
 		x.namespaces = createXmlNamespaces(n.Attr)
 		x.attrs = createXmlAttrs(n.Attr)
 		return XmlElement{
@@ -146,6 +149,12 @@ func (x *xmlParser) Pull() (node.Node, bool, error) {
 			break
 		}
 
+		// White space between the markup outside of the document element
+		// (and a byte order mark) is not part of the document.
+		if x.depth == 0 && strings.Trim(value, " \t\r\n\ufeff") == "" {
+			return x.Pull()
+		}
+
 		return XmlCharData{
 			value: value,
 		}, false, nil
@@ -163,10 +172,13 @@ func (x *xmlParser) Pull() (node.Node, bool, error) {
 			target: n.Target,
 			value:  string(n.Inst),
 		}, false, nil
+	case xml.EndElement:
+		x.depth--
+		return nil, true, nil
 	}
 
-	//case xml.EndElement:
-	return nil, true, nil
+	// Anything else (a document type declaration) produces no node.
+	return x.Pull()
 }
 
 // nextToken returns the token read ahead while merging character data, if
